@@ -1363,21 +1363,8 @@ run_on_the_fly(const World& w, vh::Rng& rng, bool thorough)
         for (float v : w.read(A3))
           gmax = std::max(gmax, (double)std::fabs(v));
       }
-      long bad = 0, bad_class2 = 0;
+      long bad = 0;
       double worst = 0;
-      // class of the known candidate below: segment 0 of span-1 data, tangential position 0, last axial position of the
-      // request, related set whose basic view is neither 0 nor 45 degrees, and the plane above that axial position is inside
-      // the image (always for an axial sub-range that stops early; for the full range only if the image has extra planes)
-      shared_ptr<DataSymmetriesForViewSegmentNumbers> s0(otf.get_symmetries_used()->clone());
-      auto in_class2 = [&](int seg, int view, int a, int t, int a_last) {
-        if (seg != 0 || t != 0 || a != a_last || w.span != 1)
-          return false;
-        if (!(a_last < w.aMax(0) || (w.zmax - w.zmin + 1) > 2 * w.aMax(0) + 1))
-          return false;
-        ViewSegmentNumbers b(view, seg);
-        s0->find_basic_view_segment_numbers(b);
-        return b.view_num() != 0 && 4 * b.view_num() != V;
-      };
       for (int s = w.minSeg; s <= w.maxSeg; ++s)
         for (int v = w.minView; v <= w.maxView; ++v)
           {
@@ -1396,11 +1383,6 @@ run_on_the_fly(const World& w, vh::Rng& rng, bool thorough)
                       g_counts["otf_bins_not_compared_lor_end_point_on_voxel_boundary"]++;
                       continue;
                     }
-                  if (d > tol && in_class2(s, v, a, t, w.aMax(0)))
-                    {
-                      ++bad_class2;
-                      continue;
-                    }
                   worst = std::max(worst, d);
                   if (d > tol)
                     ++bad;
@@ -1409,10 +1391,6 @@ run_on_the_fly(const World& w, vh::Rng& rng, bool thorough)
       std::snprintf(buf, sizeof buf, "on-the-fly ray tracing forward projector differs from the ray-tracing matrix on %ld bins (worst %.3g, data max %.3g) subset %d/%d ",
                     bad, worst, gmax, i, n);
       oracle(bad == 0, std::string(buf) + where);
-      if (bad_class2 > 0)
-        known_candidate("on-the-fly-raytracing:segment0:view-not-multiple-of-45-degrees:tangential-pos-0:half-plane-above-last-requested-axial-pos-missing:2-planes-per-axial-pos",
-                        "on-the-fly ray tracing forward projector differs from the ray-tracing matrix on " + std::to_string(bad_class2)
-                            + " bins of segment 0, tangential position 0, last axial position (image with planes beyond the last ring) " + where);
       g_counts["otf_compared"]++;
       if (gmax > 0)
         g_counts["otf_worst_deviation_ppm_of_data_max"] = std::max<long>(g_counts["otf_worst_deviation_ppm_of_data_max"], (long)(1e6 * worst / gmax));
@@ -1434,7 +1412,8 @@ run_on_the_fly(const World& w, vh::Rng& rng, bool thorough)
               t1 = w.maxT;
             }
           if (g == 3)
-            { // axial sub-range that stops before the last ring, tangential range containing 0
+            { // axial sub-range that stops before the last ring, tangential range containing 0: the class of the defect repaired
+              // in /repo by 02c0a3d12 (half-plane term above the last requested axial position) - checked strictly
               a0 = w.aMin(sg);
               a1 = std::max(a0, w.aMax(sg) - 1);
               t0 = rng.range(w.minT, 0);
@@ -1453,7 +1432,7 @@ run_on_the_fly(const World& w, vh::Rng& rng, bool thorough)
               v2.fill(5.F);
             }
           bool okn = v1.get_num_viewgrams() == v2.get_num_viewgrams();
-          long badg = 0, bad_class2g = 0, bad_adds = 0, bad_outside = 0;
+          long badg = 0, bad_adds = 0, bad_outside = 0;
           if (okn)
             {
               otf.set_input(*X);
@@ -1479,10 +1458,7 @@ run_on_the_fly(const World& w, vh::Rng& rng, bool thorough)
                             ++badg;
                             if (!inside)
                               ++bad_outside;
-                            if (in_class2(i1->get_segment_num(), i1->get_view_num(), a, t, a1))
-                              ++bad_class2g;
-                            if (prefilled && inside
-                                && (std::fabs(double((*i1)[a][t]) - 5. - (*i2)[a][t]) <= tol || in_class2(i1->get_segment_num(), i1->get_view_num(), a, t, a1)))
+                            if (prefilled && inside && std::fabs(double((*i1)[a][t]) - 5. - (*i2)[a][t]) <= tol)
                               ++bad_adds;
                           }
                       }
@@ -1490,14 +1466,7 @@ run_on_the_fly(const World& w, vh::Rng& rng, bool thorough)
             }
           std::snprintf(buf, sizeof buf, "on-the-fly ray tracing vs matrix on related viewgrams view=%d seg=%d ax=%d..%d tang=%d..%d%s: %ld bins differ (same related set: %d) ",
                         vs.view_num(), vs.segment_num(), a0, a1, t0, t1, prefilled ? " (viewgrams pre-filled with 5)" : "", badg, (int)okn);
-          if (okn && badg > 0 && badg == bad_class2g && bad_outside == 0 && !prefilled)
-            known_candidate("on-the-fly-raytracing:segment0:view-not-multiple-of-45-degrees:tangential-pos-0:half-plane-above-last-requested-axial-pos-missing:2-planes-per-axial-pos",
-                            std::string(buf)
-                                + "(all at tangential position 0 of the last requested axial position): forward_project_all_symmetries_2D calls "
-                                  "proj_Siddon<4>(Projall2, .., min_axial_pos_num, max_axial_pos_num, -0.5F, ..) where the three sibling calls pass "
-                                  "max_axial_pos_num + 1, so the half-plane contribution Projall2[max_axial_pos_num + 1] is missing "
-                                + where);
-          else if (okn && prefilled && badg > 0 && badg == bad_adds)
+          if (okn && prefilled && badg > 0 && badg == bad_adds && bad_outside == 0)
             known_candidate("on-the-fly-raytracing:forward_project(RelatedViewgrams)-adds-to-the-viewgrams-instead-of-overwriting",
                             std::string(buf)
                                 + "(all equal to old value + projection): ForwardProjectorByBinUsingRayTracing accumulates with += into the viewgrams "
